@@ -12,6 +12,13 @@ def Stuck (s : St) (c : Nat) : Prop :=
 
 instance (s : St) (c : Nat) : Decidable (Stuck s c) := by unfold Stuck; infer_instance
 
+/-- `Stuck` really is for ever, in every reachable state of either build: no actor other than the
+closer itself can take a step any more (nobody else owns a reference), so nothing will ever wake it;
+the only enabled events are a poll of the closer — which nothing triggers — or dropping its future. -/
+theorem stuck_is_forever (b : Bool) (evs : List Ev) (s s' : St) (c : Nat) (e : Ev)
+    (h : run (init b) evs = some s) (hst : Stuck s c) (hs : step s e = some s') : e.target = c :=
+  stuck_forever (inv_run (inv_init b) h) hst.1 hst.2.1 hs
+
 /-- F8, first shape (`sync` build): the dropper's wake is issued BEFORE its decrement; the woken closer
 re-polls in between, still sees 2, parks again; the decrement follows and nobody wakes the closer. -/
 theorem sync_wake_before_decrement_counterexample :
